@@ -40,7 +40,7 @@ def copy_graph(g):
     return c
 
 
-def gen_graph(rng: random.Random, n_nodes: int, first_id: int = 1):
+def gen_graph(rng: random.Random, n_nodes: int, first_id: int = 1, origin=None):
     """a strongly connected street graph: jittered grid nodes, a one-way ring, two-way and one-way chords, link lengths a
     bit longer than the crow flies, speeds varying by a factor of ten"""
     import networkx as nx
@@ -51,7 +51,12 @@ def gen_graph(rng: random.Random, n_nodes: int, first_id: int = 1):
     for k in range(n_nodes):
         i, j = k % side, k // side
         x, y = 160.0 * i + rng.uniform(-40, 40), 150.0 * j + rng.uniform(-40, 40)
-        lat, lon = world.at(x, y)
+        if origin:
+            # the same town somewhere else on the globe (another latitude: a degree of longitude is another length there)
+            lat = origin[0] + y / 111_320.0
+            lon = origin[1] + x / (111_320.0 * math.cos(math.radians(origin[0])))
+        else:
+            lat, lon = world.at(x, y)
         pts.append((x, y))
         g.add_node(k + first_id, x=lon, y=lat)
 
@@ -333,7 +338,7 @@ def write_records(path: Path, job: Dict[str, Any]) -> Dict[str, Any]:
             if kind == "dogleg":
                 g = gen_dogleg_graph(rng, job.get("scale_km", 8.0))
             else:
-                g = gen_graph(rng, job["nodes"], first_id=job.get("first_id", 1))
+                g = gen_graph(rng, job["nodes"], first_id=job.get("first_id", 1), origin=job.get("origin"))
                 if job.get("parallel", True):
                     add_parallel_links(g, rng, max(1, job["nodes"] // 4))
                 if job.get("split_junction"):
